@@ -99,6 +99,17 @@ func zzAcceptsEmpty(t, e string) bool {
 
 func zzInferEmpty(e string) string { return e + "any" }
 
+// zzAcceptsEmptyStrict: t has exactly the structure e down to where e ends.
+func zzAcceptsEmptyStrict(t, e string) bool {
+	if e == "" {
+		return true
+	}
+	if strings.HasPrefix(e, "[]") && zzIsArr(t) || strings.HasPrefix(e, "{}") && zzIsMap(t) {
+		return zzAcceptsEmptyStrict(zzSub(t), e[2:])
+	}
+	return false
+}
+
 var zzEmpties = []struct{ lit, shape string }{
 	{"[]", "[]"}, {"{}", "{}"}, {"[[]]", "[][]"}, {"[{}]", "[]{}"}, {"{a:[]}", "{}[]"},
 	{"[[[]]]", "[][][]"}, {"[[{}]]", "[][]{}"}, {"{a:[[]]}", "{}[][]"}, {"[[[[]]]]", "[][][][]"}, {"{a:{b:{}}}", "{}{}{}"}, {"[[] [[]]]", "[][][]"},
@@ -205,7 +216,21 @@ func ZZC04Assign() {
 		dyn = t2
 		want = zzConvertible(t, t2)
 	case 18, 19:
-		zzAssume(false)
+		// an element or a slice of a literal made of untyped empty literals still is an
+		// untyped empty literal: it takes the type the context requires
+		e := zzEmpties[zzChoice("empty", len(zzEmpties))]
+		if kind == 18 {
+			val = "[" + e.lit + "][0]"
+		} else {
+			if !strings.HasPrefix(e.shape, "[]") {
+				zzAssume(false)
+			}
+			val = e.lit + []string{"[:]", "[0:]"}[zzChoice("slice", 2)]
+		}
+		dyn = zzInferEmpty(e.shape)
+		// a value taken out of a literal is assignable like a variable (§10.7): its untyped
+		// innermost part takes whatever subtype is required, but nothing converts to any on the way
+		want = t == "any" || zzAcceptsEmptyStrict(t, e.shape)
 	case 6, 7, 8:
 		// a literal that contains a composite variable is not a constant:
 		// it is assignable like a variable of its own type. (Basic-typed
@@ -766,6 +791,66 @@ func ZZC04Range() {
 		zzAssert(rerr == nil || zzAcceptableErr(rerr), "C04 range: an accepted range clause runs")
 	} else {
 		zzReach("range-rejected")
+	}
+	zzWitness("end")
+}
+
+// ZZC04Params: parameters are variables: a plain parameter, a variadic
+// parameter (an array of its element type), an element of a variadic
+// parameter and a loop variable over it are assignable exactly to an identical
+// type or to any — in assignments, return values and arguments inside the
+// function body.
+func ZZC04Params() {
+	types := zzTypes(zzParam("D", 1))
+	t := types[zzChoice("target", len(types))]
+	t2 := types[zzChoice("ptype", len(types))]
+	arg := zzLit(t2)
+	if arg == "" {
+		arg = "1" // an any parameter takes anything
+	}
+	var sig, val, srcType string
+	loopOpen, loopClose, ind := "", "", "    "
+	switch zzChoice("psrc", 4) {
+	case 0:
+		sig, val, srcType = "p:"+t2, "p", t2
+	case 1:
+		sig, val, srcType = "p:"+t2+"...", "p", "[]"+t2
+	case 2:
+		sig, val, srcType = "p:"+t2+"...", "p[0]", t2
+	case 3:
+		sig, val, srcType = "p:"+t2+"...", "e", t2
+		loopOpen, loopClose, ind = "    for e := range p\n", "    end\n", "        "
+	}
+	want := t == srcType || t == "any"
+	var src string
+	switch zzChoice("pctx", 3) {
+	case 0:
+		src = "func f " + sig + "\n" + loopOpen + ind + "v:" + t + "\n" + ind + "v = " + val + "\n" + ind + "print (typeof v)\n" + loopClose + "end\nf " + arg + "\n"
+	case 1:
+		if loopOpen != "" {
+			zzAssume(false) // a return inside the loop needs another return after it: covered by the other contexts
+		}
+		src = "func f:" + t + " " + sig + "\n    return " + val + "\nend\nr := f " + arg + "\nprint (typeof r)\n"
+	case 2:
+		src = "func g q:" + t + "\n    print (typeof q)\nend\nfunc f " + sig + "\n" + loopOpen + ind + "g " + val + "\n" + loopClose + "end\nf " + arg + "\n"
+	}
+	p := &zzPlat{}
+	ev := NewEvaluator(p)
+	_, err := zzParse(ev, src)
+	if (err == nil) != want {
+		msg := ""
+		if err != nil {
+			msg = err.Error()
+		}
+		zzLog("C04 params: want accept=" + map[bool]string{true: "yes", false: "no"}[want] + "\n" + src + msg)
+	}
+	zzAssert((err == nil) == want, "C04 params: a parameter, a variadic parameter and its elements are assignable like variables: to an identical type or to any")
+	if err == nil {
+		zzReach("params-accepted")
+		rerr := NewEvaluator(&zzPlat{}).Run(src)
+		zzAssert(rerr == nil || zzAcceptableErr(rerr), "C04 params: the accepted program runs")
+	} else {
+		zzReach("params-rejected")
 	}
 	zzWitness("end")
 }
